@@ -483,6 +483,29 @@ def ie_batch(rng, budget, deep, replay=None):
     return res
 
 
+def r2d_fan_order(rng, budget, deep, replay=None):
+    """deterministic witness: inside a strong expansion fan of the steady 2-D Riemann problem the per-point
+    fsolve is warm-started from the previous point of the request, so the value depends on the order"""
+    from exactpack.solvers.riemann2D_2section_steadystate.ep_riemann2D_2section_steadystate import IGEOS_Solver
+    res = dict(evaluations=2, distinct_nontrivial=2, failures=[],
+               samples=[dict(bottom_state=[1, 1, 10, 0, 1.4], top_state=[0.002, 0.01, 2.5, 0, 1.4], x=1.0, y='linspace(-1, 1, 401)')])
+    with warnings.catch_warnings(), _quiet(), np.errstate(all='ignore'):
+        warnings.simplefilter('ignore')
+        s = IGEOS_Solver(bottom_state=[1, 1, 10, 0, 1.4], top_state=[0.002, 0.01, 2.5, 0, 1.4])
+        y = np.linspace(-1.0, 1.0, 401)
+        pts = np.stack([np.ones_like(y), y], axis=1)
+        a = np.asarray(s(pts, 1.0)['pressure'])
+        b = np.asarray(s(pts[::-1].copy(), 1.0)['pressure'])[::-1]
+    d = np.abs(a - b)
+    if float(np.max(d)) > 1e-9:
+        k = int(np.argmax(d))
+        res['failures'].append(dict(site='Riemann2D:fan-order',
+                                    detail='pressure at (1, %.4g): %r in the ascending request, %r in the descending one (%d of %d points differ)'
+                                           % (y[k], float(a[k]), float(b[k]), int(np.sum(d > 1e-9)), len(y)),
+                                    case=dict(bottom_state=[1, 1, 10, 0, 1.4], top_state=[0.002, 0.01, 2.5, 0, 1.4], point=[1.0, float(y[k])])))
+    return res
+
+
 def shared_solver(rng, budget, deep, replay=None):
     """class-level mutable attribute: configuring one black-box-Noh object must not change another"""
     from exactpack.solvers.nohblackboxeos import NohBlackBoxEos
